@@ -306,6 +306,9 @@ def cxx_build(name, sources, flags=None, libs=None, tag="std", compiler=None):
         tag = tag + "_" + hashlib.sha256(os.path.realpath(REPO).encode()).hexdigest()[:8]
     flags = list(CXXFLAGS if flags is None else flags)
     libs = list(LIBS if libs is None else libs)
+    if os.environ.get("VERIF_COVERAGE") and (compiler or CXX) == CXX and not any(f.startswith("-fsanitize") for f in flags):
+        # diagnostic mode (tools/coverage.py): gcov-instrumented harnesses in their own directories; never used by a registered check
+        tag = tag + "_cov"; flags = [f for f in flags if f not in ("-O2", "-O3")] + ["-O1", "--coverage"]; libs = libs + ["--coverage"]
     bd = os.path.join(BUILD, "bin", tag); os.makedirs(bd, exist_ok=True)
     exe = os.path.join(bd, name)
     with ThreadPoolExecutor(max_workers=NCPU) as ex:
